@@ -28,6 +28,12 @@ class Item:
         self.between = []         # non-definition commands written between a declaration and its implementing definition
         self.gt = gt              # ground truth fields (name, params, ...)
 
+    def end_item(self):
+        """pseudo item standing for the (documented) closing command"""
+        if getattr(self, "_end_item", None) is None:
+            self._end_item = Item("generic", self.endcmd, list(self.endargs), self.uid, doc=list(self.end_doc))
+        return self._end_item
+
     def walk(self):
         yield self
         for b in self.between:
@@ -91,6 +97,8 @@ def item_tokens(it, out):
         for b in it.body:
             item_tokens(b, out)
     if it.endcmd:
+        if getattr(it, "end_doc", None) is not None:
+            out.append(("DOC", it.end_item()))
         out.append(("ID", it.endcmd))
         out.append(("LP0", "("))
         out.extend(flat_arg_tokens(it.endargs))
@@ -425,6 +433,10 @@ def expected_entries(mod, trigger=":keyword"):
             visit(b)
         if k == "cpp_class":
             stack.pop()
+        if getattr(it, "end_doc", None) is not None and it.endcmd:
+            # a doccomment in front of the closing command: the closing command is documented as an ordinary command (and still
+            # closes what it closes)
+            top.append(Entry("generic", it.end_item(), it.endcmd, join_args(it.endargs)))
 
     for it in mod.items:
         visit(it)
